@@ -204,10 +204,15 @@ impl Check for C04Eval {
                 .class_if(c.e.any(&|x| matches!(x, Expr::Sel(_))), "uses_earlier_selection")
                 .class_if(c.e.any(&|x| matches!(x, Expr::Var(_) | Expr::Mac(_))), "uses_variable_or_macro")
                 .class(root_class)
+                .class_if(judged == 0, UNJUDGED_NAMES.get(root_class).copied().unwrap_or("unjudged:other"))
                 .obs(json!({"e": canon(&c.e), "x": rows.first().and_then(|r| r.get("x")).map(|v| trunc(&v.to_json(), 100))})),
         )
     }
 }
+
+/// "unjudged:<function>" class names (to see which functions the evaluator rarely decides)
+pub static UNJUDGED_NAMES: std::sync::LazyLock<std::collections::HashMap<&'static str, &'static str>> =
+    std::sync::LazyLock::new(|| crate::ftab::FTAB.iter().map(|d| (d.name, &*Box::leak(format!("unjudged:{}", d.name).into_boxed_str()))).collect());
 
 /// 'static names for class counters
 pub static FTAB_NAMES: std::sync::LazyLock<Vec<&'static str>> = std::sync::LazyLock::new(|| crate::ftab::FTAB.iter().map(|d| d.name).collect());
